@@ -951,3 +951,6 @@ def run(chk):
     chk.guard("R17.12", "completion-loop", check_completion_loop, chk, F)
     chk.guard("R17.13", "into-assets", check_into_assets, chk, F)
     chk.guard("R17.14", "scriptsig-encoding", check_scriptsig_encoding, chk, F)
+    # the locks a plan reports are merged part by part (rule shared with C03)
+    from . import c03
+    chk.guard("R17.15", "lock-merge", c03.check_lock_merge, chk, F, "R17.15")
